@@ -72,6 +72,8 @@ def generate(rng, tier):
         for d in range(1, depth + 1):
             if d < depth and tier == "quick":
                 continue
+            if d == 4 and cap < 2:
+                continue              # depth 4 only where evictions can interleave (capacities 2 and 3)
             for seq in itertools.product(alpha, repeat=d):
                 cases.append({"cap": cap, "ops": number_values(seq), "kind": "exhaustive"})
     # random long sequences at larger capacities
